@@ -335,8 +335,25 @@ def run(ctx):
     # ---------------------------------------------------------------- R4
     ctx.rule("C20-R4", "data and header use the same row bounds; every "
              "returned data array is sliced [lo:hi]")
+    from .c08 import _resolve_local
+
+    def expand(names, depth=0):
+        """replace named intermediates (n_rows = hi - lo) by what they are
+        made of, down to the row bounds"""
+        out = set()
+        for nm in names:
+            if nm in (lo, hi) or depth > 4:
+                out.add(nm)
+                continue
+            r = _resolve_local(fi.node, ast.Name(id=nm, ctx=ast.Load()))
+            if isinstance(r, ast.Name) and r.id == nm:
+                out.add(nm)
+            else:
+                out |= expand(names_in(r), depth + 1)
+        return out
     for key, vals in upd_values.items():
         for s, used in vals:
+            used = expand(used)
             want = {lo, hi} if key == "NAXIS2" else {lo}
             ctx.check("C20-R4", fi, "header update of %s in %s" %
                       (key, norm(s, 60)), used == want,
@@ -392,11 +409,19 @@ def r5_planes(ctx, prog, rule="C20-R5"):
              "taken at 0) -- in load_image_band and in its siblings")
     n = 0
     for q, fi in sorted(prog.functions.items()):
+        # local names bound to <hdu>.section
+        sect = {s_.targets[0].id for s_ in walk_no_nested(fi.node)
+                if isinstance(s_, ast.Assign) and len(s_.targets) == 1 and
+                isinstance(s_.targets[0], ast.Name) and
+                isinstance(s_.value, ast.Attribute) and
+                s_.value.attr == "section"}
         for x in walk_no_nested(fi.node):
             if not (isinstance(x, ast.Subscript) and
-                    isinstance(x.value, ast.Attribute) and
-                    x.value.attr == "section" and
-                    isinstance(x.slice, ast.Tuple)):
+                    isinstance(x.slice, ast.Tuple) and (
+                        isinstance(x.value, ast.Attribute) and
+                        x.value.attr == "section" or
+                        isinstance(x.value, ast.Name) and
+                        x.value.id in sect)):
                 continue
             els = x.slice.elts
             lead = els[:-2]
